@@ -290,4 +290,7 @@ def run(prog: Program, col: Collector, tier: str, refs: Optional[Refs] = None, c
     algebra.r_unit_elimination(prog, col, refs, cat, "R03.5")
     algebra.r_inverse_rules(prog, col, refs, cat, "R03.6")
     algebra.r_same_op(prog, col, refs, cat, "R03.7")
+    # what sequential / moment_matching / the recursive eager rule do with the reduced variables (shared with C01, C02, C08)
+    algebra.r_exact_counts(prog, col, refs, cat, "R03.8")
+    algebra.r_reduce_rules_keep_absent_vars(prog, col, refs, cat, "R03.9")
     return col
